@@ -67,7 +67,7 @@ type c02Env struct {
 	files map[string][]byte // kind name -> file content
 	// intermediate of a foreign chain: the verifier passes it as "additional intermediate" (it must not become a trust anchor)
 	foreignInter *gen.CA
-	names map[string]string // kind name -> file name
+	names        map[string]string // kind name -> file name
 }
 
 func c02Link(step string) intoto.Link {
